@@ -805,7 +805,7 @@ pub fn run_c13(tier: &str) -> i32 {
     // (b) at every byte position the card goes silent / busy forever / garbage
     let mut jobs: Vec<(Kind, bool, Fault)> = Vec::new();
     for &(k, crc, n, t) in &lens {
-        let step = if tier == "quick" { 7 } else { 1 };
+        let step = if tier == "quick" { 3 } else { 1 };
         for at in (0..n).step_by(step) {
             jobs.push((k, crc, Fault::Silent { at }));
             jobs.push((k, crc, Fault::BusyForever { at }));
